@@ -152,6 +152,11 @@ func (c *conn) Close() error {
 	return c.c.Close()
 }
 
+// CloseWrite shuts down the writing side of the connection.
+func (c *conn) CloseWrite() error {
+	return closeWrite(c.c)
+}
+
 func (c *conn) LocalAddr() net.Addr {
 	return c.c.LocalAddr()
 }
